@@ -452,7 +452,7 @@ class St:
             ry = self.raw_iv(y)
             if ry and self.diff_le(x, b, c + ry[0], depth + 1):
                 return True
-        if depth < 2 and self.facts:
+        if depth < 3 and self.facts:       # up to two intermediate atoms (a -> m1 -> m2 -> b)
             for m, c1 in self.fidx()[1].get(a, ()):
                 c1 = self.facts.get((a, m), c1)
                 if m != b and self.diff_le(m, b, c - c1, depth + 2):
